@@ -252,8 +252,10 @@ func (c *Ctx) ruleScalarConstants(cfg string) {
 		}
 		ok := v != nil && new(big.Int).Add(v, big.NewInt(1)).Cmp(l) == 0
 		add("scalarMinusOneBytes", ok, "the 32 literal bytes are l−1 in little-endian order (l = 2^252+27742317777372353535851937790883648493)", fmt.Sprintf("scalarMinusOneBytes is %v, not l−1", v))
-	} else {
+	} else if _, exists := g["scalarMinusOneBytes"]; exists {
 		add("scalarMinusOneBytes", false, "", "ANCHOR scalarMinusOneBytes is not a [32]byte literal")
+	} else {
+		add("scalarMinusOneBytes", true, "no package-level variable of this name exists; the accept set of the canonical decoder is decided from the code that compares against l (ORD obligations)", "")
 	}
 	rinv := new(big.Int).ModInverse(new(big.Int).Lsh(big.NewInt(1), 256), l)
 	for _, t := range []struct {
@@ -262,6 +264,10 @@ func (c *Ctx) ruleScalarConstants(cfg string) {
 	}{{"scalarTwo168", 168}, {"scalarTwo336", 336}} {
 		ok := false
 		got := "?"
+		if _, exists := g[t.name]; !exists {
+			add(t.name, true, fmt.Sprintf("no package-level variable of this name exists; the wide reduction is decided by value (WIDE obligations), whatever constants it uses"), "")
+			continue
+		}
 		if ptr, isP := g[t.name].(absint.Ptr); isP {
 			if st, isA := ptr.Obj.Val.(*absint.Agg); isA && len(st.Elems) == 1 {
 				if ws, isW := st.Elems[0].(*absint.Agg); isW && len(ws.Elems) == 4 {
@@ -528,6 +534,14 @@ func (c *Ctx) ruleIsReduced(cfg string) {
 	if err != nil {
 		good, why = false, err.Error()
 	}
+	if !good && strings.Contains(why, "UNDECIDED") {
+		// not a byte-wise scan: try the other common shape, a multi-word subtraction whose final borrow decides
+		if ok, detail, applies := c.isReducedByBorrow(p, f, g); applies {
+			o.OK, o.Detail = ok, detail
+			c.Set.Add(o)
+			return
+		}
+	}
 	sort.Strings(samples)
 	o.OK = good && paths >= 50
 	o.Detail = fmt.Sprintf("input bytes are touched only by comparisons with the bytes of l−1; all %d feasible decision paths over the orderings {<,=,>} enumerated: each returns true exactly when the first byte from the top that differs from l−1 is smaller (or none differs), i.e. iff the little-endian value is < l", paths)
@@ -610,4 +624,71 @@ func (c *Ctx) ruleScalarEqual(cfg string) {
 		o.Detail = fmt.Sprintf("Equal's bit 0 is %s (needs the negated OR of all 256 difference bits), other bits zero: %v, operands of the subtraction: %v", b0, rest, subArgs)
 	}
 	c.Set.Add(o)
+}
+
+// isReducedByBorrow decides "returns true iff the little-endian value of the 32
+// input bytes is < l" for an implementation that subtracts word by word and
+// returns a function of the final borrow. The flat word domain gives every word
+// as an integer polynomial in the input bytes; a chain of bits.Sub64 whose
+// first incoming borrow is 0 computes [X < Y] in its last outgoing borrow.
+func (c *Ctx) isReducedByBorrow(p *load.Program, f *ssa.Function, g map[string]absint.Val) (ok bool, detail string, applies bool) {
+	d := absint.NewLimbDom(p, true)
+	d.Flat = true
+	in := absint.New(p, d)
+	for n, m := range p.Root.Members {
+		if gv, isG := m.(*ssa.Global); isG {
+			if v, has := g[n]; has {
+				in.Globals[gv] = in.NewObject(n, gv.Type().(*types.Pointer).Elem(), v)
+			}
+		}
+	}
+	arr := &absint.Agg{Elems: make([]absint.Val, 32)}
+	V := d.R.Int(0)
+	for i := range arr.Elems {
+		arr.Elems[i] = d.Sym(fmt.Sprintf("s%d", i), big.NewInt(0), big.NewInt(255))
+		V = V.Add(d.R.Var(fmt.Sprintf("s%d", i)).Scale(new(big.Int).Lsh(big.NewInt(1), uint(8*i))))
+	}
+	x := absint.SliceV{Obj: in.NewObject("s", types.NewArray(types.Typ[types.Uint8], 32), arr), Len: 32, Cap: 32}
+	out := in.Run(f, []absint.Val{x})
+	if out.Kind != absint.ExitReturn || len(out.Results) != 1 {
+		return false, "", false
+	}
+	lb, isB := out.Results[0].(absint.LBool)
+	if !isB {
+		return false, "", false
+	}
+	// the result is b or 1−b for a borrow symbol b
+	b, trueOn := lb.P, 1
+	if cst, isC := d.R.Int(1).Sub(lb.P).IsConst(); isC {
+		return false, fmt.Sprintf("isReduced returns the constant %v", cst.Sign() == 0), true
+	}
+	X, Y, words, chained := d.BorrowChain(b)
+	if !chained {
+		b, trueOn = d.R.Int(1).Sub(lb.P), 0
+		X, Y, words, chained = d.BorrowChain(b)
+	}
+	if !chained {
+		return false, "", false
+	}
+	l := absint.L25519
+	describe := func() string {
+		return fmt.Sprintf("the result is the final borrow of a %d-word subtraction (first incoming borrow 0, each word's incoming borrow the previous outgoing one)", words)
+	}
+	xc, xIsC := X.IsConst()
+	yc, yIsC := Y.IsConst()
+	switch {
+	case X.Equal(V) && yIsC:
+		// borrow = [V < c]
+		if trueOn == 1 && yc.Cmp(l) == 0 {
+			return true, describe() + ": value − l borrows iff value < l, and true is returned exactly then", true
+		}
+		return false, fmt.Sprintf("isReduced returns %v when value < %s; expected true iff value < l", trueOn == 1, yc), true
+	case Y.Equal(V) && xIsC:
+		// borrow = [c < V]; true on no borrow: V ≤ c
+		if trueOn == 0 && new(big.Int).Add(xc, big.NewInt(1)).Cmp(l) == 0 {
+			return true, describe() + ": (l−1) − value borrows iff value > l−1, and true is returned exactly when it does not, i.e. iff value < l (value = Σ s_i·256^i as a polynomial identity in the input bytes)", true
+		}
+		return false, fmt.Sprintf("isReduced returns %v when %s < value; expected true iff value < l", trueOn == 1, xc), true
+	}
+	return false, "isReduced subtracts " + Y.String() + " from " + X.String() + ", which is not (value, l) in either order", true
 }
